@@ -490,7 +490,8 @@ class C20(core.Check):
             args.append("--no-expand")
         res = self.run_cli(args)
         lines = res["stdout"].splitlines()
-        msg_lines = [l for l in lines if " (Line: " in l and "ERROR: Invalid value" in l]
+        # a message line names the file it is about and is neither the per-file verdict nor the summary
+        msg_lines = [l for l in lines if any(l.startswith(p_) for p_ in paths) and not l.rstrip().endswith(("validated successfully", "failed to parse successfully"))]
         problems = expected_msgs + unparsed
         sig = {"unparsed_files": "yes" if unparsed else "no", "messages": str(expected_msgs) if expected_msgs in (0, 256, 512) else ("1-255" if expected_msgs < 256 else ">255"),
                "problems_mod_256_is_zero": "yes" if problems and problems % 256 == 0 else "no"}
